@@ -1370,16 +1370,22 @@ class Pool:
         pass
 
     def shrink(self, n=1):
-        for i, worker in enumerate(self._iterinactive()):
+        for i in range(n):
+            # Lower the target before choosing the worker to dismiss: from
+            # here on the supervisor does not replace a worker that exits,
+            # so a chosen worker that leaves on its own (task quota) before
+            # it is signalled cannot leave the pool above its target.
             self._processes -= 1
+            for worker in self._iterinactive():
+                if worker in self._pool:
+                    break
+            else:
+                self._processes += 1
+                raise ValueError("Can't shrink pool. All processes busy!")
             if self._putlock:
                 self._putlock.shrink()
             worker.terminate_controlled()
             self.on_shrink(1)
-            if i >= n - 1:
-                break
-        else:
-            raise ValueError("Can't shrink pool. All processes busy!")
 
     def grow(self, n=1):
         for i in range(n):
